@@ -103,6 +103,8 @@ func specMs(d time.Duration) float64 { return ConvertDurationToMs(d) }
 //@ ensures[C06.ser.pace]      forall(k, old(sendN)+1, sendN, sel(sendClock, k) >= sel(sendClock, k-1) + int(p.SendDelay))
 //@ ensures[C19.ser.cover]     ret1 == nil && len(ret0) == int(p.MaxTTL)-int(p.MinTTL)+1 && !specIsDest(ret0[len(ret0)-1]) ==> sendN - old(sendN) == int(p.MaxTTL)-int(p.MinTTL)+1
 //@ loop 1 invariant[i.range]  int(p.MinTTL) <= i && i <= int(p.MaxTTL)+1 && p.MinTTL >= 1 && p.MinTTL <= p.MaxTTL
+// the TTL loop is a counting loop: it cannot run more than MaxTTL-MinTTL+1 times (C08: "the per-TTL sum for serial runs")
+//@ loop 1 decreases[C08.ser.ttl.variant] int(p.MaxTTL) + 1 - i
 //@ loop 1 invariant[i.table]  len(results) == int(p.MaxTTL)+1 && fresh(results)
 //@ loop 1 invariant[C01.slot] forall(k, 0, len(results), results[k] != nil ==> int(results[k].TTL) == k && int(p.MinTTL) <= k)
 //@ loop 1 invariant[i.nodest] forall(k, 0, len(results), !specIsDest(results[k]))
@@ -156,6 +158,7 @@ func specMs(d time.Duration) float64 { return ConvertDurationToMs(d) }
 //@ stable C06.par.order C06.par.pace ghost.mono
 //@ modifies ghost clock, ghost sendN, ghost sendLog, ghost sendClock
 //@ loop 1 invariant[i.range]  int(p.MinTTL) <= i && i <= int(p.MaxTTL)+1
+//@ loop 1 decreases[C08.par.ttl.variant] int(p.MaxTTL) + 1 - i
 //@ loop 1 invariant[C06.order] sendN == old(sendN) + (i - int(p.MinTTL)) && forall(k, old(sendN), sendN, sel(sendLog, k) == int(p.MinTTL) + (k - old(sendN)))
 //@ loop 1 invariant[C06.pace] forall(k, old(sendN)+1, sendN, sel(sendClock, k) >= sel(sendClock, k-1) + int(p.SendDelay))
 //@ loop 1 invariant[C06.last] sendN > old(sendN) ==> now() >= sel(sendClock, sendN-1) + int(p.SendDelay)
